@@ -110,7 +110,11 @@ func runMutant(repo, spec string) int {
 // runSelfValidation (thorough tier): every corpus entry whose rules serve this property.
 func runSelfValidation(repo, verif, property string, names []string, seed int64) *selfValResult {
 	res := &selfValResult{}
-	ms, err := loadMutants(filepath.Join(verif, "mutants"))
+	dir := filepath.Join(verif, "mutants")
+	if _, err := os.Stat(dir); err != nil {
+		dir = "/verif/mutants"
+	}
+	ms, err := loadMutants(dir)
 	if err != nil {
 		res.Failed = append(res.Failed, "cannot load corpus: "+err.Error())
 		return res
